@@ -135,12 +135,13 @@ def lp_items(pid, tier, seed):
             lambda i: optvecs(True, ((False, False), (False, True)),
                               [[("maxsize", ())], [("mincost", ())]]))
         if thorough:
-            add("B two-sided x P4 x pc x stab x {none}",
-                I.family_B(True), lambda i: optvecs(True, ALL4, none))
+            add("B two-sided x {unit,cap2,lectight} x pc x stab x {none}",
+                I.family_B(True, profiles=P3), lambda i: optvecs(True, ALL4, none))
             add("B one-sided x P4 x pc x {none}",
                 I.family_B(False), lambda i: optvecs(False, NOSTAB, none))
-            add("C 3x3 restricted x P3 x pc x stab x {none}",
-                I.family_C(True), lambda i: optvecs(True, ALL4, none))
+            add("C 3x3 restricted x {unit,cap2} x pc x stab x {none}",
+                I.family_C(True, profiles=("unit", "cap2")),
+                lambda i: optvecs(True, ALL4, none))
             add("A two-sided x P x pc x stab x 9 default singles",
                 with_profiles(structs_small(True, I.SIZES_A, (1, 2))),
                 lambda i: optvecs(True, ALL4, defaults))
